@@ -72,6 +72,17 @@ Init ==
            /\ GarbageOK(c, sh, g) /\ (c.in = "path" => r)
            /\ case = [cell |-> c, shape |-> sh.id, schema |-> s, required |-> r, presence |-> "garbage",
                       g |-> g, v |-> SomeVal(sh), wire |-> Garbage(c, "p", g), decoy |-> FALSE]
+   \* emptiness: the parameter is there, its value is the empty text ("p=", "X-P:", "p=" in the cookie)
+   \/ \E c \in Cells, sh \in Shapes, r \in BOOLEAN, ae \in BOOLEAN :
+        \E s \in sh.schemas :
+           /\ c.in \in {"query", "header", "cookie"} /\ c.style \in {"form", "simple"}
+           /\ sh.id \in {"int", "num", "bool", "str", "arrint"} /\ Defined(c, SomeVal(sh))
+           /\ (ae => c.in = "query")                   \* allowEmptyValue exists for query parameters only
+           /\ case = [cell |-> c, shape |-> sh.id, schema |-> s, required |-> r, presence |-> "empty", allowEmpty |-> ae,
+                      v |-> SomeVal(sh), decoy |-> FALSE,
+                      wire |-> (CASE c.in = "query" -> [kind |-> "query", pairs |-> <<Pair("p", "")>>]
+                                  [] c.in = "header" -> [kind |-> "header", val |-> ""]
+                                  [] c.in = "cookie" -> [kind |-> "cookie", val |-> ""])]
 Next == UNCHANGED case
 Spec == Init /\ [][Next]_case
 
